@@ -60,7 +60,7 @@ def bucketSpec (f : Svc → String) (svcs : List Svc) (k : String) : List String
   (svcs.filter (fun s => f s = k)).map (fun s => lower s.name)
 
 /-- an index is exactly the family of non-empty classes -/
-def IdxOk (f : Svc → String) (svcs : List Svc) (idx : Index) : Prop :=
+def IdxOk (f : Svc → String) (svcs : List Svc) (idx : NameIndex) : Prop :=
   ∀ k, dget k idx = if bucketSpec lower f svcs k = [] then none else some (bucketSpec lower f svcs k)
 
 /-- `_services` is a map: keys are pairwise different -/
@@ -137,15 +137,15 @@ theorem sget_of_mem {svcs : List Svc} (hd : KeysDistinct lower svcs) {s : Svc} (
 
 /-! ### index operations preserve `IdxOk` -/
 
-theorem Index.dget_add (idx : Index) (k x k' : String) :
+theorem NameIndex.dget_add (idx : NameIndex) (k x k' : String) :
     dget k' (idx.add k x) = if k' = k then some ((dget k idx).getD [] ++ [x]) else dget k' idx := by
-  unfold Index.add; exact dget_dset _ _ _ _
+  unfold NameIndex.add; exact dget_dset _ _ _ _
 
-theorem IdxOk.add {f : Svc → String} {svcs : List Svc} {idx : Index} (h : IdxOk lower f svcs idx) (s s' : Svc)
+theorem IdxOk.add {f : Svc → String} {svcs : List Svc} {idx : NameIndex} (h : IdxOk lower f svcs idx) (s s' : Svc)
     (hn : lower s'.name = lower s.name) (hf : f s' = f s) :
     IdxOk lower f (svcs ++ [s']) (idx.add (f s) (lower s.name)) := by
   intro k
-  rw [Index.dget_add, bucketSpec_append]
+  rw [NameIndex.dget_add, bucketSpec_append]
   by_cases hk : k = f s
   · subst hk
     have hb : bucketSpec lower f [s'] (f s) = [lower s.name] := by simp [bucketSpec, hf, hn]
@@ -156,7 +156,7 @@ theorem IdxOk.add {f : Svc → String} {svcs : List Svc} {idx : Index} (h : IdxO
       simp [bucketSpec, this]
     rw [hb, h k]; simp [hk]
 
-theorem IdxOk.remove {f : Svc → String} {svcs : List Svc} {idx : Index} (h : IdxOk lower f svcs idx)
+theorem IdxOk.remove {f : Svc → String} {svcs : List Svc} {idx : NameIndex} (h : IdxOk lower f svcs idx)
     (hd : KeysDistinct lower svcs) (old : Svc) (ho : old ∈ svcs) :
     ∃ idx', idx.remove (f old) (lower old.name) = .ok idx'
       ∧ IdxOk lower f (svcs.filter (fun s => !decide (lower s.name = lower old.name))) idx' := by
@@ -167,7 +167,7 @@ theorem IdxOk.remove {f : Svc → String} {svcs : List Svc} {idx : Index} (h : I
   have herase : (bucketSpec lower f svcs (f old)).erase (lower old.name)
       = bucketSpec lower f (svcs.filter (fun s => !decide (lower s.name = lower old.name))) (f old) := by
     rw [bucketSpec_filter_key, (bucketSpec_nodup lower f svcs (f old) hd).erase_eq_filter]
-  unfold Index.remove
+  unfold NameIndex.remove
   rw [hg]
   simp only [hmem, if_true]
   refine ⟨_, rfl, ?_⟩
@@ -199,7 +199,7 @@ theorem IdxOk.remove {f : Svc → String} {svcs : List Svc} {idx : Index} (h : I
     · simp [he, dget_ddel, hk]
     · simp [he, dget_dset, hk]
 
-theorem IdxOk.map {f : Svc → String} {svcs : List Svc} {idx : Index} (h : IdxOk lower f svcs idx) (g : Svc → Svc)
+theorem IdxOk.map {f : Svc → String} {svcs : List Svc} {idx : NameIndex} (h : IdxOk lower f svcs idx) (g : Svc → Svc)
     (hn : ∀ s, lower (g s).name = lower s.name) (hf : ∀ s, f (g s) = f s) : IdxOk lower f (svcs.map g) idx := by
   intro k; rw [bucketSpec_map lower f g svcs k hn hf]; exact h k
 
@@ -210,7 +210,7 @@ theorem KeysDistinct.map {svcs : List Svc} (hd : KeysDistinct lower svcs) (g : S
   exact hd.imp (fun {a b} h => by rw [hn a, hn b]; exact h)
 
 /-- every key of an index has a service behind it (no empty bucket is advertised — D3) -/
-theorem IdxOk.backed {f : Svc → String} {svcs : List Svc} {idx : Index} (h : IdxOk lower f svcs idx) {p : String × List String}
+theorem IdxOk.backed {f : Svc → String} {svcs : List Svc} {idx : NameIndex} (h : IdxOk lower f svcs idx) {p : String × List String}
     (hp : p ∈ idx) : ∃ s ∈ svcs, f s = p.1 := by
   have h1 := dget_isSome_of_mem idx p hp
   rw [h p.1] at h1
@@ -348,7 +348,7 @@ theorem lookupAll_of_sub {svcs : List Svc} (hd : KeysDistinct lower svcs) (l : L
     have h2 := ih (fun s hs => hl s (by simp [hs]))
     simp only [List.map_cons, Registry.lookupAll, h1, h2]
 
-theorem Registry.byIndex_ok (reg : Registry) (f : Svc → String) (idx : Index) (hd : KeysDistinct lower reg.services)
+theorem Registry.byIndex_ok (reg : Registry) (f : Svc → String) (idx : NameIndex) (hd : KeysDistinct lower reg.services)
     (h : IdxOk lower f reg.services idx) (k : String) :
     reg.byIndex lower idx k = .ok (reg.services.filter (fun s => f s = k)) := by
   unfold Registry.byIndex
